@@ -1327,6 +1327,9 @@ where
         self.pid_pubrec.clear();
         self.pid_pubcomp.clear();
         self.pid_pubrel.clear();
+        // every packet ID was reset above: no SUBSCRIBE/UNSUBSCRIBE may keep claiming one
+        self.pid_suback.clear();
+        self.pid_unsuback.clear();
         self.store.clear();
         // a new session also forgets which inbound QoS 2 messages were already delivered
         self.qos2_publish_handled.clear();
